@@ -17,7 +17,7 @@
    env-assignment prefix law are theorems of the ladder model: Props/C04L.v.
    The docker/kubectl exec extraction theorems (handler half of C13) are in Props/C13H.v.
    The models follow /repo after the repairs 23c5075 (env) fcba02c (fd) b4cdef6 (find) 53c5c7c (shell)
-   6c3ffaf (xargs) 5143c77 (quote removal); what was refuted before them is now proved, and the old
+   6c3ffaf (xargs) 5143c77 (quote removal) and the fd appended-path repair; what was refuted before them is now proved, and the old
    behaviour is kept as Legacy definitions with their refutations. *)
 From DippyV Require Import Base.Str Base.Verdict Gen.Tables Model.BashQuote Model.Getopt Model.Wrappers Model.WrapSpec
   Proofs.VerdictP Proofs.BashQuoteP Proofs.WrappersP Proofs.WrapOptsP.
@@ -161,6 +161,30 @@ Theorem C04_extract_xargs_ddash : forall c, c <> [] ->
 Proof. exact xargs_extract_ddash. Qed.
 Print Assumptions C04_extract_xargs_ddash.
 
+(* fd -x|--exec|-X|--exec-batch COMMAND ARG...  for every command with no lone ; among its words: the handler delegates
+   exactly the command fd runs, which ends in the found path ({}) unless a word holds one of fd's placeholders
+   (repair of the finding C04-fd-appended-path: `fd -x env` was judged as `env` and runs every file found) *)
+Theorem C04_extract_fd : forall flag c0 cs,
+  In flag (map s2l ["-x"; "--exec"; "-X"; "--exec-batch"]) -> no_semi (c0 :: cs) = true ->
+  fd_h ($"fd" :: flag :: c0 :: cs) = HWords [fd_with_path (c0 :: cs)] false /\
+  fd_exec (flag :: c0 :: cs) = Some [fd_path (c0 :: cs)].
+Proof. exact fd_extract. Qed.
+Print Assumptions C04_extract_fd.
+Theorem C04_fd_path_agrees : forall c, fd_with_path c = fd_path c.
+Proof. exact fd_with_path_spec. Qed.
+Print Assumptions C04_fd_path_agrees.
+Theorem C04_fd_path_appended : forall c, fd_has_placeholder c = false -> fd_with_path c = c ++ [PLACEHOLDER].
+Proof. exact fd_with_path_appends. Qed.
+Print Assumptions C04_fd_path_appended.
+Theorem C04_fd_path_keeps_words : forall c, exists t, fd_with_path c = c ++ t.
+Proof. exact fd_with_path_keeps. Qed.
+Print Assumptions C04_fd_path_keeps_words.
+(* the hypotheses are met by a non-trivial command *)
+Example C04_extract_fd_nonvacuous :
+  In ($"--exec") (map s2l ["-x"; "--exec"; "-X"; "--exec-batch"]) /\ no_semi (w ["nice"; "-n"; "5"; "env"]) = true /\
+  fd_has_placeholder (w ["nice"; "-n"; "5"; "env"]) = false.
+Proof. vm_compute. intuition. Qed.
+
 (* find PATH... -exec COMMAND ARG... ;  for every command whose words are not ; \; -ok -okdir -delete and that
    has no + right after {} (a + anywhere else is an ordinary argument, as for find) *)
 Theorem C04_extract_find : forall paths c,
@@ -194,8 +218,12 @@ Theorem C04_repaired_witnesses :
    (modelled (w ["xargs"; "--process-slot"; "ls"; "rm"; "x"]) = Some (HWords [w ["rm"; "x"; "{}"]] false) /\
     wrapper_exec (w ["xargs"; "--process-slot"; "ls"; "rm"; "x"]) = Some [w ["rm"; "x"]]) /\
    modelled (w ["xargs"; "env"]) = Some (HWords [w ["env"; "{}"]] false)) /\
-  (modelled (w ["fd"; "-x"; "ls"; ";"; "-x"; "rm"]) = Some (HWords [w ["ls"]; w ["rm"]] false) /\
-   wrapper_exec (w ["fd"; "-x"; "ls"; ";"; "-x"; "rm"]) = Some [w ["ls"]; w ["rm"]]).
+  ((modelled (w ["fd"; "-x"; "ls"; ";"; "-x"; "rm"]) = Some (HWords [w ["ls"; "{}"]; w ["rm"; "{}"]] false) /\
+    wrapper_exec (w ["fd"; "-x"; "ls"; ";"; "-x"; "rm"]) = Some [w ["ls"; "{}"]; w ["rm"; "{}"]]) /\
+   (modelled (w ["fd"; "-x"; "env"]) = Some (HWords [w ["env"; "{}"]] false) /\
+    wrapper_exec (w ["fd"; "-x"; "env"]) = Some [w ["env"; "{}"]]) /\
+   (modelled (w ["fd"; "-X"; "mv"; "{}"; "{.}.bak"]) = Some (HWords [w ["mv"; "{}"; "{.}.bak"]] false) /\
+    wrapper_exec (w ["fd"; "-X"; "mv"; "{}"; "{.}.bak"]) = Some [w ["mv"; "{}"; "{.}.bak"]])).
 Proof. exact (conj shell_formerly_refuted (conj find_formerly_refuted (conj env_formerly_refuted (conj xargs_formerly_refuted fd_formerly_refuted)))). Qed.
 Print Assumptions C04_repaired_witnesses.
 
